@@ -15,8 +15,18 @@ import random
 
 KINDS = ['pass', 'failout', 'failexc', 'allskip', 'partskip', 'expexc', 'disabled', 'comment']
 EXTRA_KINDS = ['neardis', 'ellipsis', 'normws', 'ignws']
+# doctests that FAIL BEFORE ANY PART EXECUTED (nothing is logged, nothing is skipped at the failing part):
+# a statement rejected when the part is compiled (first executed part, possibly after skipped parts; shape 2 =
+# the same error after a part already ran), a malformed directive.  A module that raises on import is a
+# module-level flag of the spec (`import_error`).
+EARLY_KINDS = ['failcompile', 'baddirective']
+COMPILE_STMTS = ['return 5', 'break', 'continue', 'nonlocal x', 'yield 1']
+# doctests that END THEMSELVES at run time: `pytest.skip()` called by the doctest (a BaseException) and
+# `raise xdoctest.ExitTestException()`; both stop the doctest at that line without an error: reported PASSED by
+# both front ends (something ran), the rest of the doctest does not run, later doctests still run
+EXIT_KINDS = ['skipcall', 'exitcall']
 # kinds allowed in a two-block callable (freeform merges the blocks into one doctest)
-TWO_KINDS = ['pass', 'failout', 'failexc', 'allskip', 'partskip', 'expexc', 'comment']
+TWO_KINDS = ['pass', 'failout', 'failexc', 'allskip', 'partskip', 'expexc', 'comment', 'failcompile', 'baddirective']
 
 DISABLE_FIRST_LINES = [
     '>>> # DISABLE_DOCTEST',
@@ -74,6 +84,27 @@ def block_lines(kind, variant, ident):
         first = PYSKIP_FIRST_LINES[(variant // 2) % len(PYSKIP_FIRST_LINES)]
         want = v if variant % 2 == 0 else 'w ' + ident
         return [first, T('a'), ">>> print('%s')" % v, want]
+    if kind == 'failcompile':
+        stmt = '>>> ' + COMPILE_STMTS[variant % len(COMPILE_STMTS)]
+        shape = (variant // len(COMPILE_STMTS)) % 3
+        if shape == 0:      # the very first part
+            return [stmt, T('b')]
+        if shape == 1:      # first EXECUTED part, after a skipped one
+            return [">>> print('x')  # xdoctest: +SKIP", 'wrong', stmt, T('b')]
+        return [T('a'), ">>> print('%s')" % v, v, stmt, T('b')]     # after a part already ran
+    if kind in ('skipcall', 'exitcall'):
+        call = ['>>> import pytest', ">>> pytest.skip('resource missing %s')" % ident] if kind == 'skipcall' else \
+            ['>>> import xdoctest', '>>> raise xdoctest.ExitTestException()']
+        shape = variant % 3
+        if shape == 0:      # first thing the doctest does; the part has a (never checked) want
+            return call + [T('b'), ">>> print('z')", 'wrong']
+        if shape == 1:      # after output that was checked against a want
+            return [T('a'), ">>> print('%s')" % v, v] + call + [T('b')]
+        return [T('a')] + call + [T('b'), ">>> print('z')", 'wrong', T('c')]     # in the middle
+    if kind == 'baddirective':
+        if variant % 2 == 0:
+            return ['>>> # xdoctest: +REQUIRES(foo:bar)', T('a'), ">>> print('%s')" % v, v]
+        return [T('a') + '  # xdoctest: +REQUIRES(foo:bar)', ">>> print('%s')" % v, v]
     if kind == 'plaincmt':   # `pyskip` with its trigger neutralised
         want = v if variant % 2 == 0 else 'w ' + ident
         return ['>>> # plain first line', T('a'), ">>> print('%s')" % v, want]
@@ -98,6 +129,9 @@ def block_outcome(kind, variant, ident, opts):
     """(outcome 'P'|'F'|'S', trace list, persistent_skip) of one block run on its own with the
     directive defaults `opts` (name -> bool)"""
     T = lambda k: '%s/%s' % (ident, k)
+    if kind == 'baddirective':
+        # `runstate.update(directives)` raises before the skip test is even made
+        return 'F', [], False
     if opts.get('SKIP'):
         return 'S', [], False
     iw = bool(opts.get('IGNORE_WANT'))
@@ -107,6 +141,11 @@ def block_outcome(kind, variant, ident, opts):
         return ('P', [T('a'), T('b')], False) if iw else ('F', [T('a')], False)
     if kind == 'failexc':
         return 'F', [T('a')], False
+    if kind in ('skipcall', 'exitcall'):
+        return 'P', ([] if variant % 3 == 0 else [T('a')]), False
+    if kind == 'failcompile':
+        late = (variant // len(COMPILE_STMTS)) % 3 == 2
+        return 'F', ([T('a')] if late else []), False
     if kind == 'allskip':
         return 'S', [], True
     if kind == 'partskip':
@@ -157,15 +196,19 @@ def inventory(spec, style):
     return out
 
 
-def doctest_outcome(dt, opts):
-    """outcome and trace of one collected doctest when it is run"""
+def doctest_outcome(dt, opts, import_error=False):
+    """outcome and trace of one collected doctest when it is run; `import_error`: the module under
+    test raises when it is imported (the implicit pre-import precedes the first part that would execute)"""
     trace = []
     anyran = False
     skipping = False
     for (k, v, i) in dt['blocks']:
-        if skipping:
+        if skipping and k != 'baddirective':     # a malformed directive fails even a skipped part
             continue
         o, t, persist = block_outcome(k, v, i, opts)
+        if import_error and k != 'baddirective' and o in 'PF':
+            # the first part that is not skipped triggers the import, which fails: nothing executes
+            return 'F', trace
         trace.extend(t)
         if persist:
             skipping = True
@@ -191,6 +234,8 @@ def expected_run(spec, style, cmd, opts):
     inv = inventory(spec, style)
     if cmd == 'list':
         return {'action': 'list', 'names': [d['unique'] for d in inv], 'exit': 0}
+    if cmd == 'dump':
+        return {'action': 'dump', 'names': [d['unique'] for d in inv if not disabled(d)], 'exit': 0}
     if cmd == 'all':
         enabled = [d for d in inv if not disabled(d)]
         zero = []
@@ -204,8 +249,9 @@ def expected_run(spec, style, cmd, opts):
             else:
                 zero = [z for z in zs if cmd in (z, z + ':0')]
     ran, outs, trace, failed = [], [], [], []
+    ie = bool(spec.get('import_error'))
     for d in enabled:
-        o, t = doctest_outcome(d, opts)
+        o, t = doctest_outcome(d, opts, ie)
         ran.append(d['unique'])
         outs.append(o)
         trace.extend(t)
@@ -213,7 +259,9 @@ def expected_run(spec, style, cmd, opts):
             failed.append(d['unique'])
     for z in zero:
         ran.append(z + ':0')
-        outs.append('S' if opts.get('SKIP') else 'P')
+        outs.append('S' if opts.get('SKIP') else ('F' if ie else 'P'))
+        if outs[-1] == 'F':
+            failed.append(z + ':0')
     return {'action': 'run', 'ran': ran, 'outcomes': outs, 'trace': trace,
             'n_total': len(ran), 'n_passed': outs.count('P'), 'n_failed': outs.count('F'),
             'n_skipped': outs.count('S'), 'failed': failed, 'exit': 1 if failed else 0}
@@ -222,6 +270,8 @@ def expected_run(spec, style, cmd, opts):
 def render(spec):
     """python source of the module (google-style blocks; the same text is valid freeform)"""
     out = [HEADER]
+    if spec.get('import_error'):
+        out.append('raise RuntimeError("this module cannot be imported")\n\n')
     cur_cls = None
     for f in spec['funcs']:
         cn = callname_of(f)
@@ -282,7 +332,7 @@ def make_spec(name, kinds_with_variants, rng=None, shapes=True):
 
 
 def random_spec(name, rng, maxlen=12, kinds=None, two_prob=0.15, nodoc_prob=0.1):
-    kinds = kinds or (KINDS + EXTRA_KINDS)
+    kinds = kinds or (KINDS + EXTRA_KINDS + EARLY_KINDS + EXIT_KINDS)
     n = rng.randint(1, maxlen)
     items = []
     for _ in range(n):
@@ -290,11 +340,14 @@ def random_spec(name, rng, maxlen=12, kinds=None, two_prob=0.15, nodoc_prob=0.1)
         if r < nodoc_prob:
             items.append([])
         elif r < nodoc_prob + two_prob:
-            items.append([(rng.choice(TWO_KINDS), rng.randrange(4)), (rng.choice(TWO_KINDS), rng.randrange(4))])
+            items.append([(rng.choice(TWO_KINDS), rng.randrange(15)), (rng.choice(TWO_KINDS), rng.randrange(15))])
         else:
             k = rng.choice(kinds)
             items.append((k, rng.randrange(n_disabled_variants())))
-    return make_spec(name, items, rng=rng)
+    spec = make_spec(name, items, rng=rng)
+    if rng.random() < 0.07:
+        spec['import_error'] = True
+    return spec
 
 
 OPTION_SETS = [
